@@ -70,7 +70,7 @@ def toEntry (env : Env) : (fuel : Nat) → (root : Mod) → (scope : List Stmt) 
       (e.withD fun d => { d with listAttr := some la, errors := d.errors ++ lerrs,
                                  default := (n.all "default").map (·.arg) }, st)
     else if n.kw == "uses" then
-      match (findGrouping env.reg (2 * fuel + 16) root scope n.arg []).1 with
+      match (findGrouping env.reg env.linked (2 * fuel + 16) root scope n.arg []).1 with
       | none => (errorEntry root n "unknown-group", st)
       | some (g, groot, gscope) => toEntry env fuel groot gscope g visiting st
     else
